@@ -37,8 +37,9 @@ def parse_emitted(out):
     res = []
     for m in re.finditer(r'<<"RESULT", "((?:[^"\\]|\\.)*)">>', out):
         txt = m.group(1).encode().decode("unicode_escape")
-        res.append(json.loads(txt))
-    return res
+        res.append(txt)
+    # TLC prints in the order its workers get there: sort, so that seeded samples of the records are reproducible
+    return [json.loads(t) for t in sorted(set(res))]
 
 
 def atom_bytes(c, n):
